@@ -587,6 +587,13 @@ func BuildSummary(s *AnalyzerState, function *ssa.Function) *SummaryGraph {
 	if summary == nil {
 		id := GetUniqueFunctionID()
 		summary = NewPredefinedSummary(function, id)
+		if summary == nil {
+			// The function has not been visited by the intra-procedural pass (for example, it is a closure that is
+			// created but never called, hence not reachable in the callgraph) and has no predefined summary.
+			// A fresh summary is created; no new node is tracked in a function that was not part of the first pass.
+			summary = NewSummaryGraph(s, function, id,
+				func(*AnalyzerState, ssa.Node) bool { return false }, nil)
+		}
 		s.FlowGraph.Summaries[function] = summary
 	}
 	logger := s.Logger
